@@ -17,6 +17,13 @@ GROUPS = [
       bound='Rectangular and Regular kinds: loop-free, all column/row counts including 0 and 1'),
     R('rep_extrema_explicit', 'get_extrema', 'h_rep_extrema', defines={'VF_EXPLICIT_KINDS': 1}, timeout=1500, disjoint_unions=['Repetition'],
       bound='ExplicitX and ExplicitY kinds: coordinate lists of any length (loop contracts, ghost index + ghost witnesses)'),
+] + [
+    R('rep_offsets_explicit' + sfx, 'get_offsets', 'h_rep_offsets', enforce='Repetition__get_offsets/Repetition__get_offsets_explicit',
+      defines={'VF_FIXED_TYPE': t, 'VF_EXPLICIT_ONLY': 1}, unwind=5, kind='bounded', timeout=900, disjoint_unions=['Repetition'],
+      apply_loop_contracts=False, loop_contracts_for=[], uf_fp=False,
+      bound='%s kind: coordinate lists of 0..3 entries (loop unwound, unwinding assertions on), arbitrary doubles' % nm)
+    for sfx, t, nm in [('x', 4, 'ExplicitX'), ('y', 5, 'ExplicitY')]
+] + [
     # rep_offsets_rect / rep_offsets_regular (get_offsets, lattices <= 3 x 3; contract in contracts/repetition.ct):
     # out of memory (writes through a double* view of the Vec2 array at loop-dependent offsets); not claimed.
     # rep_extrema_explicit (bounded ExplicitX/Y, <= 3 coordinates): CBMC reports postcondition failures whose printed
